@@ -6,7 +6,7 @@
    pieces whose union is the face have areas totalling the face area, difference = A minus the intersection, union plus
    intersection = sum, a split of A and B re-assembles both.  The sweep, loop classification (_from_bool_poly), the graph
    splitter and the hole merger are validated against that specification by the harness, not proved. *)
-From LBG Require Import Base QGeom G0_vec G1_shapes C06_plane CellSpec C09_parts.
+From LBG Require Import Base QGeom G0_vec G1_shapes C06_plane CellSpec C09_parts LoopGroup.
 From Coq Require Import ZArith List.
 Import ListNotations.
 
@@ -43,6 +43,18 @@ Theorem C09_coplanar_split_reassembles_both : forall a b,
   area (cinter a b) + area (cdiff a b) = area a /\ area (cinter a b) + area (cdiff b a) = area b.
 Proof. exact split_pieces_area. Qed.
 Print Assumptions C09_coplanar_split_reassembles_both.
+
+(* loop classification (hand model LoopGroup.v of Face3D._from_bool_poly, run against it on nested loop families): for every
+   laminar family of loops sorted outermost-first, after all n loops are placed (i) every group is a face whose outer loop has even
+   nesting depth and whose holes are exactly the loops whose innermost enclosing loop is that outer loop, (ii) every loop of even
+   depth is the outer loop of a face, (iii) no two faces share an outer loop - i.e. the faces realise the even-odd reading. *)
+Theorem C09_loop_classification_is_even_odd : forall (inside : nat -> nat -> bool),
+  (forall a b, inside a b = true -> (a < b)%nat) ->
+  (forall a b c, inside a b = true -> inside b c = true -> inside a c = true) ->
+  (forall a b x, inside a x = true -> inside b x = true -> (a < b)%nat -> inside a b = true) ->
+  forall n, (1 <= n)%nat -> Inv inside n (classify inside n).
+Proof. exact classify_is_even_odd. Qed.
+Print Assumptions C09_loop_classification_is_even_odd.
 
 (* an L-shape (cells of a 2x2 block minus one) cut into two pieces; and the L minus the cell touching its reflex corner *)
 Example C09_nonvacuous :
